@@ -1,8 +1,157 @@
 package c11
 
-import "verif/internal/h"
+import (
+	"encoding/json"
+	"fmt"
+	"os"
+	"os/exec"
+	"path/filepath"
+	"strconv"
+	"strings"
+	"time"
 
-// SysCase is the system leg (failing data/index writers inside flush and compaction); filled in later.
-type SysCase struct{}
+	"pgregory.net/rapid"
+	"verif/internal/crash"
+	"verif/internal/h"
+	"verif/internal/prog"
+	"verif/props/c02"
+)
 
-func sysProp(c Case, x *h.Ctx) *h.Violation { return nil }
+// SysCase is the system leg: a simpledb program runs in a child process in which the data or index writer of the
+// f-th flush or c-th compaction fails at a chosen record position (build-tag hook). Afterwards the parent opens the
+// directory without faults: its content must equal the model of the acknowledged operations.
+type SysCase struct {
+	Program prog.Program `json:"program"`
+}
+
+func SysGen() *rapid.Generator[Case] {
+	return rapid.Custom(func(t *rapid.T) Case {
+		p := c02.ProgramGen(false).Draw(t, "program")
+		for i := range p.Sessions {
+			p.Sessions[i].NoClose = false
+		}
+		p.Fault = &prog.WriterFault{
+			Target: rapid.SampledFrom([]string{"flush", "compaction", "compaction"}).Draw(t, "target"),
+			Nth:    rapid.IntRange(0, 3).Draw(t, "nth"),
+			Which:  rapid.SampledFrom([]string{"data", "index"}).Draw(t, "which"),
+			Pos:    rapid.IntRange(0, 4).Draw(t, "pos"),
+			Sticky: rapid.Bool().Draw(t, "sticky"),
+		}
+		return Case{Kind: "system", Sys: &SysCase{Program: p}}
+	})
+}
+
+func sysProp(c Case, x *h.Ctx) *h.Violation {
+	x.Label("leg=system")
+	p := &c.Sys.Program
+	work, done := h.Scratch("c11sys")
+	defer done()
+	root := filepath.Join(work, "db")
+	if err := os.MkdirAll(root, 0o755); err != nil {
+		panic(err)
+	}
+	pj, _ := json.Marshal(p)
+	pfile := filepath.Join(work, "program.json")
+	if err := os.WriteFile(pfile, pj, 0o644); err != nil {
+		panic(err)
+	}
+	ack := filepath.Join(work, "ack")
+	build := os.Getenv("VERIF_BUILD")
+	if build == "" {
+		build = "/verif/.build"
+	}
+	cmd := exec.Command(filepath.Join(build, "runner"), pfile, root, ack)
+	cmd.Dir = work
+	out := &strings.Builder{}
+	cmd.Stdout, cmd.Stderr = out, out
+	if err := cmd.Start(); err != nil {
+		panic(h.Infra{Msg: "cannot start runner: " + err.Error()})
+	}
+	donec := make(chan error, 1)
+	go func() { donec <- cmd.Wait() }()
+	exit := 0
+	select {
+	case err := <-donec:
+		if ee, ok := err.(*exec.ExitError); ok {
+			exit = ee.ExitCode()
+		} else if err != nil {
+			panic(h.Infra{Msg: "runner: " + err.Error()})
+		}
+	case <-time.After(30 * time.Second):
+		_ = cmd.Process.Kill()
+		return h.V("iofault/system/hang", "the child did not finish within 30 s after an injected %s %s-writer failure (deadlock?)", p.Fault.Target, p.Fault.Which)
+	}
+	ops := p.Ops()
+	called := make([]bool, len(ops))
+	okRet := make([]bool, len(ops))
+	ret := make([]bool, len(ops))
+	armed, opErr := false, false
+	ab, _ := os.ReadFile(ack)
+	for _, ln := range strings.Split(string(ab), "\n") {
+		f := strings.SplitN(ln, " ", 3)
+		if len(f) < 2 {
+			continue
+		}
+		if f[0] == "fault-armed" {
+			armed = true
+			continue
+		}
+		i, err := strconv.Atoi(f[1])
+		if err != nil || i < 0 || i >= len(ops) {
+			continue
+		}
+		switch f[0] {
+		case "call":
+			called[i] = true
+		case "ret":
+			ret[i] = true
+			if len(f) == 3 && f[2] == "ok" {
+				okRet[i] = true
+			} else if len(f) == 3 && strings.HasPrefix(f[2], "err") {
+				opErr = true
+			}
+		}
+	}
+	var acked []int
+	for i := range ops {
+		if okRet[i] {
+			acked = append(acked, i)
+		}
+	}
+	got, oerr := crash.ReadAll(root, p.Keys, true)
+	desc := fmt.Sprintf("fault: %s #%d %s writer fails at write %d (sticky=%v); child exit status %d", p.Fault.Target, p.Fault.Nth, p.Fault.Which, p.Fault.Pos, p.Fault.Sticky, exit)
+	if oerr != nil {
+		return h.V("iofault/system/"+oerr.Phase+"-failed/"+p.Fault.Target+"/"+oerr.Class(), "%s; opening the directory afterwards failed in %s: %.600s\nchild output: %.600s", desc, oerr.Phase, oerr.Err, out.String())
+	}
+	want := crash.ModelAfter(p, ops, acked)
+	d := crash.Diff(want, got)
+	if d != "" {
+		for i := range ops {
+			if called[i] && !ret[i] || (ret[i] && !okRet[i]) {
+				with := append(append([]int{}, acked...), i)
+				for j := len(with) - 1; j > 0 && with[j] < with[j-1]; j-- {
+					with[j], with[j-1] = with[j-1], with[j]
+				}
+				if crash.Diff(crash.ModelAfter(p, ops, with), got) == "" {
+					d = ""
+					break
+				}
+			}
+		}
+	}
+	if d != "" {
+		return h.V("iofault/system/content/"+p.Fault.Target, "%s; the directory afterwards does not hold the acknowledged operations (expected vs found: %s): an incomplete output was installed or acknowledged data was dropped\nchild output: %.600s", desc, d, out.String())
+	}
+	x.Label("fault-target=" + p.Fault.Target)
+	if armed {
+		x.Label("fault-armed")
+	}
+	if exit != 0 {
+		x.Label("child-stopped")
+	}
+	if opErr {
+		x.Label("operation-returned-error")
+	}
+	x.SetNonTrivial(armed && (exit != 0 || opErr))
+	return nil
+}
